@@ -111,6 +111,7 @@ class Run(object):
         self.n_stop = self.n_conc = self.n_raise = self.n_uec = self.n_run2 = 0
         self.outcome = None
         self.start_idx = None
+        self.remake = None
 
     # ------------------------------------------------------------------ recording
     def log(self, **kw):
@@ -400,6 +401,12 @@ class Run(object):
         else:
             raise RuntimeError('appseries_exec: unexpected end of run: %r %r' % (kind, val))
 
+    def slim(self):
+        """Drop the objects of the finished execution (cyclic garbage: tasks, futures, pipelines); keep the record."""
+        self.app = self.pipes = self.series = None
+        self.pending = {}
+        return self
+
     def header(self):
         c = self.cfg
         return {'np': self.NP, 'tt': self.T, 'skp': [bool(x) for x in c['skp']], 'reg': [bool(x) for x in c['reg']], 'kk': list(c['kk']),
@@ -411,7 +418,9 @@ def confirm_livelock(r):
     deterministic, so a verdict `livelock` is only kept if the same schedule does it again with a generous limit."""
     if r.outcome != 'livelock':
         return r
-    if r.chooser is not None:
+    if r.remake is not None:
+        again = r.remake()          # stateless exploration: the same choice prefix again
+    elif r.chooser is not None:
         again = Run(r.cfg, r.fired, fallback=False, pre=r.pre, post=r.post)
     else:
         again = Run(r.cfg, r.script0, fallback=r.fallback, timed=r.timed0, pre=r.pre, post=r.post)
